@@ -14,6 +14,7 @@
   not speak about them), and no token ends in an index group `[n]` (D26 invariant).
 -/
 import YtkProofs.Pointer
+import YtkProofs.FuncsPtr
 
 namespace Ytk.C10
 open Ytk.Ptr
@@ -134,5 +135,33 @@ theorem nonvacuous_eval :
     (["a", "0", "b", "x", "-1", "2", "m~n"].all tokOk) = true ∧
     tokOk "01" = false ∧ tokOk "-0" = false ∧ tokOk "+1" = false ∧ tokOk "k[0]" = false := by
   decide
+
+end Ytk.C10
+
+/-! ## Translated functions (YtkModel/Generated/Funcs.lean, regenerated from the Go source on every
+    run by extract/translate.go): the translation EQUALS the hand-written model, for all inputs.
+    An edit of the Go function changes the regenerated definition and these stop checking. -/
+namespace Ytk.C10
+open Ytk.Generated
+
+theorem PropPath2Pointer_loop1_eq (p : List Ptr.PropSeg) (acc : String) :
+    Funcs.PropPath2Pointer_loop1 (p.map Ptr.segToGo) acc
+      = .ok (p.foldl (fun acc pc => acc ++ "/" ++ (if pc.isNum then toString pc.index else pc.value)) acc) := by
+  induction p generalizing acc with
+  | nil => simp [Funcs.PropPath2Pointer_loop1]
+  | cons s r ih =>
+    simp only [List.map_cons, Funcs.PropPath2Pointer_loop1, List.foldl_cons]
+    cases h : s.isNum <;> simp [Ptr.segToGo, h, ih, Go.fmtD_nat, Go.fmtS, String.append_assoc]
+
+/-- xform.PropPath2Pointer, as translated (its callee patch.MustParsePath is a parameter of the
+    translation, instantiated with the model's parser): the model's `propPath2Pointer`, for all
+    segment lists with non-negative indices (the model's index is a `Nat`). -/
+theorem PropPath2Pointer_generated_eq_model (p : List Ptr.PropSeg) :
+    Funcs.PropPath2Pointer Ptr.mustParseRes (p.map Ptr.segToGo)
+      = (match Ptr.propPath2Pointer p with
+         | .ok q => Go.Res.ok q
+         | _ => Go.Res.panic) := by
+  simp only [Funcs.PropPath2Pointer, PropPath2Pointer_loop1_eq, Go.Res.ok_bind, Ptr.propPath2Pointer, Ptr.mustParseRes]
+  cases Ptr.parseS _ <;> simp
 
 end Ytk.C10
